@@ -49,6 +49,34 @@ txt = {
  "P_other": "foo", "P_tagx": "tagx", "P_ta": "ta",
  "PV_tok": "abc", "PV_num": "3600", "PV_0": "0", "PV_big": "4294967296", "PV_q5": "0.5", "PV_q1": "1", "PV_q1000": "1.000", "PV_q05": ".05", "PV_q2": "2",
  "PV_quoted": "\"q v\"", "PV_qesc": "\"a\\\"b;c,d\"",
+ "U_inner": "sip:a@b;tag=in;lr;expires=5;q=0.1", "WSFH": "\r\n\t", "WSSF": " \r\n ",
+ "PV_max": "4294967295", "PV_huge": "99999999999999999999999", "PV_60": "60", "PV_q0000": "0.000", "PV_q025": "0.25", "U_comma": "sip:a,b@h;x=1,2", "WSH": "\t",
+ # URI component values of the URI-pair generator (GenURI.tla, C15)
+ "GU_sip": "sip", "GU_sips": "sips", "GU_e": "", "GU_al": "al", "GU_Al": "Al", "GU_pw": "pw", "GU_Pw": "Pw",
+ "GU_hx": "h.x", "GU_Hx": "H.x", "GU_gy": "g.y", "GU_5060": "5060", "GU_5070": "5070",
+ "GU_transport": "transport", "GU_user": "user", "GU_ttl": "ttl", "GU_method": "method", "GU_maddr": "maddr",
+ "GU_lr": "lr", "GU_foo": "foo", "GU_bar": "bar", "GU_a": "a", "GU_A": "A", "GU_b": "b",
+ "GU_s": "s", "GU_S": "S", "GU_t": "t",
+ # parameter lists (GenParams.tla, C17): URI parameter names in several letter cases, near misses, URI header / plain names, values
+ "UP_transport": "transport", "UP_Transport": "Transport", "UP_TRANSPORT": "TRANSPORT", "UP_tRaNsPoRt": "tRaNsPoRt",
+ "UP_user": "user", "UP_USER": "USER", "UP_uSer": "uSer", "UP_method": "method", "UP_METHOD": "METHOD", "UP_Method": "Method",
+ "UP_ttl": "ttl", "UP_TTL": "TTL", "UP_tTl": "tTl", "UP_maddr": "maddr", "UP_MADDR": "MADDR", "UP_mAddR": "mAddR",
+ "UP_lr": "lr", "UP_LR": "LR", "UP_Lr": "Lr", "UP_lR": "lR",
+ "UP_transpor": "transpor", "UP_transports": "transports", "UP_transp0rt": "transp0rt", "UP_ransport": "ransport", "UP_trans_port": "trans-port",
+ "UP_use": "use", "UP_users": "users", "UP_usor": "usor", "UP_metho": "metho", "UP_methods": "methods", "UP_mathod": "mathod",
+ "UP_tt": "tt", "UP_ttll": "ttll", "UP_tti": "tti", "UP_madd": "madd", "UP_maddrs": "maddrs", "UP_naddr": "naddr",
+ "UP_l": "l", "UP_r": "r", "UP_lrr": "lrr", "UP_rl": "rl", "UP_lr_": "lr-", "UP_xlr": "xlr", "UP_l_hi": "l\xf2", "UP_at_lr": "Lr\x00",
+ "UP_foo": "foo", "UP_amp": "a&b", "UP_x": "x",
+ "UH_subject": "subject", "UH_To": "To", "UH_qm": "a?b", "UH_xh": "x-h",
+ "PN_tag": "tag", "PN_foo": "foo", "PN_qm": "a?b", "PN_marks": "-_.!~*'()%[]/:+$", "PN_a": "a",
+ "PV_marks": "1-_.!~*'()%[]/:+$z", "PQ_esc": "\"a\\\"b;c&d,e?f =\\\\\"", "PQ_empty": "\"\"",
+ "MT_hdrs": "h=v&i=j", "MT_comma": " <sip:x@y>;p", "MT_tok": "tok", "MT_ab": "ab", "MT_cd": "cd", "MT_n": "n", "MT_qab": "\"ab\"",
+ # C19 signature generator (MC_GenSig): method names, request tail, alternative values that keep the fingerprinted
+ # strings (From tag 1928301774, first Via branch z9hG4bK776asdhds) and change everything else
+ "M_invite": "INVITE", "M_register": "REGISTER", "M_options": "OPTIONS", "M_foo": "FOO", "T_ruri": " sip:bob@b.example SIP/2.0",
+ "N_ua": "user-agent",
+ "V_from1b": "\"Alice\" <sips:al@x.example:5061>;x=y;tag=1928301774", "V_via1b": "SIP/2.0/TCP 10.1.1.1:5061;branch=z9hG4bK776asdhds;rport",
+ "V_maxfwd2": "0", "V_ua2": "x/2 (y)", "V_cseq5": "1 INVITE",
 }
 out = ["------------------------------- MODULE Texts -------------------------------",
        "(* GENERATED by gen_texts.py -- literal texts as byte tuples (no structure, no offsets) *)", "EXTENDS Integers, Sequences", ""]
